@@ -98,6 +98,14 @@ Theorem bleu_functional_spec : forall c b,
   bleu_of_stats c (bleu_beta c b) = bleu_of_stats c (bleu_beta_with sent_matches_spec c b).
 Proof. exact bleu_fn_spec. Qed.
 
+(* REFUTED by the faithful model (known finding C08-bleu-zero-weight-nan): with a zero weight on an
+   order without matches, class and functional return nan although the corpus is accepted and an
+   n-gram matched (0 * log 0 inside exp(sum w_i log p_i); the product form bp * prod p_i^w_i is 1/2 here). *)
+Theorem bleu_value_is_number_refuted : exists (c : bcfg) (b : bbatch),
+  bleu_ok (fst c) b = true /\ bleu_matches sent_matches (fst c) b = [1; 0] /\
+  bleu_gamma c (bleu_beta c b) = xq_val NaN /\ xr_val (bleu_of_stats c (bleu_beta c b)) = xq_val NaN.
+Proof. exact (ex_intro _ _ (ex_intro _ _ bleu_zero_weight_witness)). Qed.
+
 (* ---- non-vacuity ------------------------------------------------------------------------ *)
 Open Scope Z_scope.
 (* matching tokens in the middle: the diagonal shortcut is exercised; distance 2 *)
@@ -158,3 +166,4 @@ Print Assumptions bleu_closest_ref_spec.
 Print Assumptions bleu_brevity_spec.
 Print Assumptions bleu_spec.
 Print Assumptions bleu_functional_spec.
+Print Assumptions bleu_value_is_number_refuted.
